@@ -24,8 +24,8 @@ from props import PROPS  # noqa: E402
 
 REPO = os.environ.get("REPO", "/repo")
 GEN = os.path.join(ROOT, "spec", "gen")
-BUILD = os.path.join(ROOT, "build")
-OUT = os.path.join(ROOT, "out")
+BUILD = os.environ.get("VERIF_BUILD_DIR", os.path.join(ROOT, "build"))
+OUT = os.environ.get("VERIF_OUT_DIR", os.path.join(ROOT, "out"))
 KNOWN = os.path.join(ROOT, "known_findings.json")
 
 
@@ -47,24 +47,35 @@ def tree_hash(paths):
     return h.hexdigest()[:16]
 
 
-def build(kind):
-    """kind: 'fiber' -> binary 'core'; thread-regime drivers are built by build_thread.sh"""
-    hv = tree_hash([os.path.join(REPO, "src"), os.path.join(REPO, "include"), os.path.join(ROOT, "vrt"),
-                    os.path.join(ROOT, "drivers"), os.path.join(ROOT, "tools", "build_" + kind + ".sh")
-                    if os.path.isdir(os.path.join(ROOT, "tools", "build_" + kind + ".sh")) else os.path.join(ROOT, "vrt")])
-    out = os.path.join(BUILD, f"{kind}_{hv}")
+def build(kind, binary="core"):
+    """fiber regime: binary 'core' (whole library + drivers/core.c); thread regime: one
+    build directory per driver binary drivers/thr_<binary>.c. Cached on a hash of the sources."""
+    srcs = [os.path.join(REPO, "src"), os.path.join(REPO, "include"), os.path.join(ROOT, "vrt")]
+    h = hashlib.sha256(tree_hash(srcs).encode())
+    if kind == "fiber":
+        files = sorted(glob.glob(os.path.join(ROOT, "drivers", "*.[ch]")))
+        files = [f for f in files if not os.path.basename(f).startswith("thr_")]
+        tag = "fiber"
+    else:
+        files = [os.path.join(ROOT, "drivers", f) for f in (f"thr_{binary}.c", "thr_common.h", "thr_stubs.c")]
+        tag = f"thr_{binary}"
+    files.append(os.path.join(ROOT, "tools", f"build_{kind}.sh"))
+    for f in files:
+        h.update(open(f, "rb").read())
+    out = os.path.join(BUILD, f"{tag}_{h.hexdigest()[:16]}")
     stamp = os.path.join(out, ".ok")
     if os.path.exists(stamp):
         return out
-    # drop older builds of this kind
-    for d in glob.glob(os.path.join(BUILD, f"{kind}_*")):
+    for d in glob.glob(os.path.join(BUILD, f"{tag}_*")):
         shutil.rmtree(d, ignore_errors=True)
     os.makedirs(out, exist_ok=True)
     env = dict(os.environ, REPO=REPO, OUT=out)
+    if kind != "fiber":
+        env["DRIVER"] = binary
     r = subprocess.run([os.path.join(ROOT, "tools", f"build_{kind}.sh")], env=env, capture_output=True, text=True)
-    if r.returncode != 0:
+    if r.returncode != 0 or not os.path.exists(os.path.join(out, binary)):
         log(r.stdout[-4000:], r.stderr[-4000:])
-        raise Infra(f"build of {kind} harness failed")
+        raise Infra(f"build of {kind}/{binary} harness failed")
     open(stamp, "w").write("ok")
     return out
 
@@ -253,7 +264,7 @@ def check_property(prop, tier, seed0):
         scen = load_scen(sname)
         gen_mc_for(scen, cfgp)
         kind = scen.get("kind", "fiber")
-        bdir = build(kind if kind == "fiber" else "thread")
+        bdir = build(kind if kind == "fiber" else "thread", scen.get("binary", "core"))
         binary = os.path.join(bdir, scen.get("binary", "core"))
         n = scen.get("seeds", {}).get(tier, nseeds)
         seeds = [seed0 * 100003 + i for i in range(1, n + 1)]
@@ -380,7 +391,7 @@ def replay(path):
     r = json.load(open(path))
     scen = load_scen(r["scenario"])
     kind = scen.get("kind", "fiber")
-    bdir = build(kind if kind == "fiber" else "thread")
+    bdir = build(kind if kind == "fiber" else "thread", scen.get("binary", "core"))
     binary = os.path.join(bdir, scen.get("binary", "core"))
     d = tempfile.mkdtemp(prefix="vrt_replay_")
     tr, rc, err = run_one(binary, scen, r["seed"], d)
